@@ -3,6 +3,7 @@ package props
 import (
 	"bytes"
 	"fmt"
+	"math"
 	"sort"
 	"strings"
 	"testing"
@@ -139,27 +140,35 @@ type c13ItemCase struct {
 	// Ellipsis (lists only): the last of the Count entries is an ellipsis "..." - an entry like any other
 	// for the limit, which is defined on the number of entries
 	Ellipsis bool `json:"ellipsis,omitempty"`
+	// Fill selects the value every element holds (0: the plain one; 1: the largest of the format / all bits set;
+	// 2: the smallest / sign bit only; 3: a byte pattern with telling bytes): the length field must be read back whatever the payload is
+	Fill int `json:"fill,omitempty"`
 }
 
 func init() { registerReplay("c13item", checkC13Item) }
 
 // uniformArgs builds count factory arguments cheaply (one shared value).
-func uniformArgs(kind string, count int) []interface{} {
+func uniformArgs(kind string, count int, fill ...int) []interface{} {
 	args := make([]interface{}, count)
+	f := 0
+	if len(fill) > 0 {
+		f = fill[0] % 4
+	}
+	w := uint(8 * model.Width(kind))
 	var v interface{}
 	switch {
 	case kind == model.L:
 		v = ast.NewBinaryNode()
 	case kind == model.B:
-		v = 0xA5
+		v = []int{0xA5, 0xFF, 0x00, 0x0A}[f]
 	case kind == model.BOOLEAN:
-		v = true
+		v = f%2 == 0
 	case model.IsSigned(kind):
-		v = -1
+		v = []int64{-1, 1<<(w-1) - 1, -1 << (w - 1), 0x0D0A2E3C0D0A2E3C >> (64 - w)}[f]
 	case model.IsUnsigned(kind):
-		v = 1
+		v = []uint64{1, 1<<w - 1, 1 << (w - 1), 0xFF0A2E3CFF0A2E3C >> (64 - w)}[f]
 	default:
-		v = 1.5
+		v = []float64{1.5, -3.25e30, math.Copysign(0, -1), float64(math.Float32frombits(0x00800001))}[f]
 	}
 	for i := range args {
 		args[i] = v
@@ -167,11 +176,17 @@ func uniformArgs(kind string, count int) []interface{} {
 	return args
 }
 
-func buildUniform(kind string, count int) ast.ItemNode {
-	if kind == model.A {
-		return ast.NewASCIINode(string(bytes.Repeat([]byte{'x'}, count)))
+func asciiFill(fill int) byte { return []byte{'x', 0x7F, 0x00, '%'}[fill%4] }
+
+func buildUniform(kind string, count int, fill ...int) ast.ItemNode {
+	f := 0
+	if len(fill) > 0 {
+		f = fill[0]
 	}
-	args := uniformArgs(kind, count)
+	if kind == model.A {
+		return ast.NewASCIINode(string(bytes.Repeat([]byte{asciiFill(f)}, count)))
+	}
+	args := uniformArgs(kind, count, f)
 	switch {
 	case kind == model.L:
 		return ast.NewListNode(args...)
@@ -189,12 +204,13 @@ func buildUniform(kind string, count int) ast.ItemNode {
 
 func checkC13Item(c c13ItemCase) (ci caseInfo, err error) {
 	ci.Nontrivial = c.Count > 0
-	ci.Key = fmt.Sprintf("item/%s/%d", c.Kind, c.Count)
+	ci.Key = fmt.Sprintf("item/%s/%d/%d", c.Kind, c.Count, c.Fill)
+	ci.label("item-fill:%d", c.Fill%4)
 	w := model.Width(c.Kind)
 	within := c.Count*w <= model.MaxLen
 	ci.label("item:%s", map[bool]string{true: "constructible", false: "beyond-limit"}[within])
 	var item ast.ItemNode
-	panicked, msg := try(func() { item = buildUniform(c.Kind, c.Count) })
+	panicked, msg := try(func() { item = buildUniform(c.Kind, c.Count, c.Fill) })
 	if c.Ellipsis && c.Kind == model.L && c.Count >= 2 {
 		ci.Key += "/ellipsis"
 		ci.label("list-with-ellipsis-entry")
@@ -213,7 +229,7 @@ func checkC13Item(c c13ItemCase) (ci caseInfo, err error) {
 		// the same string through the other way an ASCII item comes into being: filling a variable
 		var viaFill ast.ItemNode
 		p2, _ := try(func() {
-			viaFill = ast.NewASCIINodeVariable("v", 0, -1).FillVariables(map[string]interface{}{"v": string(bytes.Repeat([]byte{'x'}, c.Count))})
+			viaFill = ast.NewASCIINodeVariable("v", 0, -1).FillVariables(map[string]interface{}{"v": string(bytes.Repeat([]byte{asciiFill(c.Fill)}, c.Count))})
 		})
 		if p2 != panicked {
 			return ci, fmt.Errorf("ASCII of %d characters: the factory %s it, filling a variable %s it", c.Count, map[bool]string{true: "refuses", false: "accepts"}[panicked], map[bool]string{true: "refuses", false: "accepts"}[p2])
@@ -486,6 +502,12 @@ func TestC13Items(t *testing.T) {
 				continue
 			}
 			runCase[c13ItemCase](t, "C13", "c13item", checkC13Item, c13ItemCase{Kind: kind, Count: count})
+			if kind != model.L {
+				// the same size with other payloads (all of them for the sizes up to the 2|3 length-byte border, one more for the rest)
+				for fill := 1; fill <= 3 && (fill == 1 || count <= 65537); fill++ {
+					runCase[c13ItemCase](t, "C13", "c13item", checkC13Item, c13ItemCase{Kind: kind, Count: count, Fill: fill})
+				}
+			}
 			if kind == model.L && count >= 2 && (count <= 65537 || count == maxc+1 || isThorough()) {
 				runCase[c13ItemCase](t, "C13", "c13item", checkC13Item, c13ItemCase{Kind: kind, Count: count, Ellipsis: true})
 			}
